@@ -159,5 +159,6 @@ func init() {
 		Assumptions: []string{"both versions persisted and complete (a root whose nodes are missing is C03's subject and aborts the case)"},
 		Gen:         genC07,
 		Run:         runC07,
+		Enumerate:   enumWidePairs,
 	})
 }
